@@ -32,6 +32,8 @@ def check(rep, tier, seed):
             lines.append(f"flip {level} {d.hex() or '-'}")
     for raw in ("ffffffff0f0100", "ffffffff0f", "00", "-", "0000", "0500", "ffffffff0fffffffff0f", "0a03030000"):
         lines.append(f"raw {raw}")
+    lines.append("huge 5")
+    lines.append("huge 0")
     res = {}
     for prof, exe in (("release", harness), ("debug", hdebug)):
         res[prof] = C.run_sharded(exe, "compress", lines if prof == "release" else lines[::4], wd, prof, shards=16)
@@ -66,6 +68,10 @@ def check(rep, tier, seed):
                 worst = max(worst, int(kv["worst_alloc"]))
                 if kv["over_bound"] != "0":
                     why = "a damaged frame caused an allocation request above max(64 KiB, 2 x produced)"
+            elif l.startswith("huge "):
+                if a != "huge err LengthTooLarge written=0":
+                    why = ("a block of 2^32 + %s bytes is not reported as LengthTooLarge with nothing written (the frame "
+                           "cannot record its true length)" % l.split()[1])
             elif l.startswith("raw "):
                 alloc = int(a.rsplit("alloc=", 1)[1])
                 if alloc > 65536 + 64:
@@ -82,7 +88,8 @@ def check(rep, tier, seed):
                 "repetitive), sizes 1 B .. 100 KiB (1 MiB thorough) incl. 65535/65536/65537, x compression levels 0-9, "
                 "written to Vec/BytesMut/SizeCalculator, read through SliceInput/OwnedInput/DeserializationContext with data "
                 "after the frame; every truncation and every single-bit flip of small frames, both header lengths rewritten "
-                "to boundary values; hostile raw frames (ff ff ff ff 0f 01 00 ...); largest single allocation per read "
+                "to boundary values; hostile raw frames (ff ff ff ff 0f 01 00 ...); blocks of 2^32 and 2^32 + 5 bytes (must be "
+                "LengthTooLarge, nothing written); largest single allocation per read "
                 "measured by a counting allocator; release and (a quarter of the cases) debug",
         "samples": [l[:120] for l in lines[:3] + lines[-3:]], "damaged_frames": nflip, "worst_allocation_on_damage": worst,
     })
